@@ -541,6 +541,14 @@ fn c19_array_eq_ignores_element_type() {
     assert!((vx == vy) == (a == b));
     assert!((vy == vx) == (a == b));
     std::mem::forget((vx, vy, kx, ky));
+    // stored element types that are not related by the subtype relation at all
+    let p = mk_array(Type::Float, Arc::from([Variable::Int(a)]));
+    let q = mk_array(Type::String, Arc::from([Variable::Int(b)]));
+    let (kp, kq) = (p.clone(), q.clone());
+    let (vp, vq) = (Variable::Array(p), Variable::Array(q));
+    assert!((vp == vq) == (a == b));
+    assert!((vq == vp) == (a == b));
+    std::mem::forget((vp, vq, kp, kq));
 }
 #[kani::proof]
 #[kani::unwind(4)]
